@@ -14,6 +14,8 @@ from harness.props import c12, c19
 POOL = ['\\begin{myv}$ {\\end{myv} \\a{z}', '$m$ {g} \\textbf a \\label b', '\\newcommand{\\p}[2]{x} \\p{a}{b}', '\\p{a}{b}{c} a\r\nb \\x{y}\r\n', '\\begin{e}[o]{r}t\\end{e}', '\\a{x} $y$', '\\left( x \\right]',
         '\\section[s]{t}\n\n\\begin{itemize}\\item i\\end{itemize}', '$m$ \\[d\\] \\(p\\)', '\\def\\x y %c\nz',
         # sources whose parse FAILS while groups / environments are still open (whatever a failed parse leaves behind must not reach later parses)
+        # sources that begin with white space (a chunking may isolate it)
+        '\n  \\a{x} y', ' \n\n\\begin{e}t\\end{e}',
         '\\textbf{\\emph{x}', '{{{$x', '\\begin{e}{[{\\begin{f}x\\end{e}', '\\a{\\b[\\c{\\']
 SKIP = ('myv',)
 FORMS = ['str', 'list', 'tuple', 'gen', 'file', 'chars', 'lines']
@@ -54,10 +56,10 @@ class Failed(object):
         return '<' + self.name + '>'
 
 
-def parse_obs(x, skip=SKIP):
+def parse_obs(x, skip=SKIP, tolerance=0):
     from TexSoup import TexSoup
     try:
-        soup = TexSoup(x, skip_envs=skip)
+        soup = TexSoup(x, skip_envs=skip, tolerance=tolerance)
     except (EOFError, TypeError, AssertionError) as e:
         return Failed(type(e).__name__), {'out': '<' + type(e).__name__ + '>', 'flat': []}
     return soup, {'out': str(soup), 'flat': proj.flat_seq(soup.expr._contents)}
@@ -233,9 +235,10 @@ def run(chk):
                 'mutable object. A case is a (source, form, chunking), a (seed, source) or an interleaving.')
     # (1) expected trees from the machine; lexer determinism on sizing commands
     sizing = ['\\' + p + d + 'x' for p in c12.PREFIX for d in c12.DELIMS]
-    res = S.explore(chk, 'pool', [], userskip=SKIP, invariants=['C17_LexDeterminism', 'C06_Diagnostic'], sources=POOL + sizing, runs='')
+    res = S.explore(chk, 'pool', [], userskip=SKIP, invariants=['C17_LexDeterminism', 'C06_Diagnostic'], sources=POOL + sizing, runs='B')
     S.model_must_hold(chk, res)
     expect = {from_atoms(r['i']): r['A'] for r in res.records}
+    expect_tol = {from_atoms(r['i']): r['B'] for r in res.records}         # the machine's tolerant run of the same sources
     res0 = S.explore(chk, 'pool-noskip', [], userskip=(), invariants=['C06_Diagnostic'], sources=POOL, runs='')
     expect0 = {from_atoms(r['i']): r['A'] for r in res0.records}
 
@@ -248,23 +251,23 @@ def run(chk):
     lres = c19.lexer(chk, ['\\', 'l', 'e', 'f', 't', '.', '|', '(', 'b', 'i', 'g'], 0, sizing + ['\\left.|', '\\bigg\\langle', '\\Bigg\\rfloor x'])
     # (2) forms and chunkings
     n_forms = 0
-    for src in POOL + (sizing if not quick else sizing[::7]):
-        want = expect[src]
+    for tol, src in [(0, x) for x in POOL + (sizing if not quick else sizing[::7])] + [(1, x) for x in POOL]:
+        want = expect[src] if tol == 0 else expect_tol[src]
         cutsets = [[c] for c in range(len(src) + 1)]
-        if len(src) <= 14 or not quick:
+        if (len(src) <= 14 or not quick) and not (quick and tol == 1):
             cutsets += [[a, b] for a in range(len(src) + 1) for b in range(a, len(src) + 1)][::(1 if not quick else 3)]
         for form in FORMS:
             for cuts in (cutsets if form in ('list', 'tuple', 'gen') else [None]):
                 n_forms += 1
-                chk.case('form:%s:%s:%r' % (src, form, cuts))
+                chk.case('form:%d:%s:%s:%r' % (tol, src, form, cuts))
                 try:
-                    soup, o = parse_obs(feed(src, form, cuts))
+                    soup, o = parse_obs(feed(src, form, cuts), tolerance=tol)
                     got = {'o': 'ok', 'out': to_atoms(o['out']), 'flat': o['flat']} if not isinstance(soup, Failed) else \
                         {'o': soup.name, 'out': [], 'flat': []}
                 except Exception as e:   # noqa
                     got = {'o': type(e).__name__ if type(e).__name__ in obs.DIAG else 'leak:' + type(e).__name__, 'out': [], 'flat': []}
                 if got['o'] != want['o'] or (got['o'] == 'ok' and (got['out'] != want['out'] or got['flat'] != want['flat'])):
-                    chk.violation('C17-input-form', {'kind': 'form', 'input': src, 'form': form, 'cuts': cuts,
+                    chk.violation('C17-input-form', {'kind': 'form', 'input': src, 'form': form, 'cuts': cuts, 'tolerance': tol,
                                                      'got': from_atoms(got['out']), 'want': from_atoms(want['out'])})
     chk.count('form_chunking_cases', n_forms)
     # parsing twice: equal and disjoint
@@ -359,6 +362,6 @@ def replay(chk, path):
     if case.get('kind') == 'session':
         print(json.dumps(_session({'t': case['trace']})))
     elif case.get('kind') == 'form':
-        soup, o = parse_obs(feed(case['input'], case['form'], case.get('cuts')))
+        soup, o = parse_obs(feed(case['input'], case['form'], case.get('cuts')), tolerance=case.get('tolerance', 0))
         print(json.dumps(o['out']))
     return 0
